@@ -165,8 +165,6 @@ class World:
     def raw(self, acts: str, accept: str | None, token: str | None) -> tuple[str | None, str | None, list[tuple[Any, ...]], str | None, str | None, int]:
         """One request with hand-chosen headers through the bare Falcon test client.
         Returns (error type, error kind, server log, VGI-Session response header, VGI-Session-Close header, status)."""
-        import pyarrow as pa
-
         from harness.rawrpc import error_of, read_streams, request_bytes
         from vgi_rpc.http._common import SESSION_ACCEPT_HEADER, SESSION_CLOSE_HEADER, SESSION_HEADER
 
@@ -187,7 +185,6 @@ class World:
                 etype, ekind = err[0], (err[2] or None)
         except Exception as e:  # noqa: BLE001
             etype, ekind = "unparseable:" + type(e).__name__, None
-        _ = pa
         self.last_headers = {str(k).lower(): str(v) for k, v in dict(r.headers).items()}
         return etype, ekind, list(LOG), r.headers.get(SESSION_HEADER), r.headers.get(SESSION_CLOSE_HEADER), r.status_code
 
